@@ -232,6 +232,43 @@ def empty_family(rng=None):
     return out
 
 
+def midclash_family(rng=None):
+    """The peer's message IDs happen to meet ours: requests of the peer, answered by the handler (so their replies sit in the response
+    cache under the peer's message IDs), carry exactly the message IDs the connection will use for its own next messages —
+    confirmable ones (the reply is a piggybacked ACK, no ID of ours is drawn: a contiguous window above our last ID) and
+    non-confirmable ones (the reply goes out as a confirmable response and draws two IDs: the third).  Then the connection sends
+    requests and the peer answers them piggybacked (an ACK under our ID).  The cache is about the peer's confirmable /
+    non-confirmable messages; the ACK is the awaited response and must reach the call."""
+    out = []
+    for q in ((16, 0) if rng is None else (rng.choice([0, 1, 16]),)):
+        n = 6 if rng is None else rng.randint(3, 8)
+        window = " ".join("arrivem:%d:a:con:+%d" % (i, i) for i in range(1, n + 1))
+        out += [
+            "scn udp %d 0 0 %s call:g1 resp:1 call:g2 resp:2 sleep:31000 settle" % (q, window),
+            "scn udp %d 0 0 call:g1 resp:1 %s call:g2 resp:2 call:g3 ack:3 sep:3 sleep:31000 settle" % (q, window),
+            "scn udp %d 0 0 %s arrive:20:g1 resp:1 arrive:21:g2+g3 resp:2 resp:3 sleep:31000 settle" % (q, window),
+            "scn udp %d 0 0 call:g1 resp:1 arrivem:1:a:non:+3 call:g2 resp:2 sleep:31000 settle" % q,
+            "scn udp %d 0 0 call:g1 resp:1 arrivem:1:a:non:+3 arrivem:2:a:non:+4 arrivem:3:a:non:+5 call:g2 resp:2 call:g3 resp:3 sleep:31000 settle" % q,
+            "scn udp %d 0 0 call:g1 %s resp:1 call:n2 resp:2 sleep:31000 settle" % (q, window),
+        ]
+    return out
+
+
+def sametoken_family(rng=None):
+    """Two messages under the token of a pending request, back to back (stream transport: in one write): the first is the response,
+    the second belongs to nobody any more and reaches the connection's handler — exactly once, never dropped."""
+    out = []
+    for tr in ("tcp", "udp"):
+        for q in ((16, 1) if rng is None else (rng.choice([0, 1, 2, 16]),)):
+            out += [
+                "scn %s %d 0 0 call:g1 resp2:1 settle" % (tr, q),
+                "scn %s %d 0 0 arrive:1:g1 resp2:1 arrive:2:r settle" % (tr, q),
+                "scn %s %d 0 0 call:g1 call:h2 resp2:2 resp2:1 arrive:1:g3 resp2:3 settle" % (tr, q),
+                "scn %s %d 0 0 arrive:1:g1+g2 resp2:1 resp2:2 burst:2-3 settle" % (tr, q),
+            ]
+    return out
+
+
 # one discovery of a real udp.Server over a loopback socket each (real time, about 1.6 s per line): the receiver callback issues a
 # blocking request on the responder's connection; order of the responder's messages after it
 DISCOVERY = ["disc ack-d2-sep", "disc d2-ack-sep", "disc ack-sep-d2", "disc d2-pig"]
@@ -283,7 +320,9 @@ def corpus_lines():
 def gen_lines(ctx):
     rng = random.Random(ctx.seed * 7727 + 11)
     L = [(l, True) for l in corpus_lines() + FIXED + stale_family() + requeue_family() + callback_family() + framesize_family()
-         + empty_family() + DISCOVERY]
+         + empty_family() + midclash_family() + sametoken_family() + DISCOVERY]
+    for _ in range(20 if ctx.tier == "thorough" else 2):
+        L += [(l, True) for l in midclash_family(rng) + sametoken_family(rng)]
     for _ in range(20 if ctx.tier == "thorough" else 2):
         L += [(l, True) for l in empty_family(rng)]
     for _ in range(40 if ctx.tier == "thorough" else 6):
